@@ -128,7 +128,9 @@ impl Epoch {
         provider: L,
     ) -> Option<f64> {
         for leap_second in provider.rev() {
-            if self.to_tai_duration().to_seconds() >= leap_second.timestamp_tai_s
+            // Compare the durations and not their floating point seconds, which are only accurate to a few hundred
+            // nanoseconds at these magnitudes (the leap second timestamps are whole seconds, hence exact).
+            if self.to_tai_duration() >= leap_second.timestamp_tai_s * Unit::Second
                 && (!iers_only || leap_second.announced_by_iers)
             {
                 return Some(leap_second.delta_at);
